@@ -41,6 +41,8 @@ type waiter struct {
 type lockState struct {
 	writer  bool
 	readers int
+	writerG int         // label of the goroutine holding the write lock
+	readerG map[int]int // label -> number of read locks held
 }
 
 // Policy selects how S picks among eligible goroutines.
@@ -121,6 +123,14 @@ type Sim struct {
 	OnGrant    func(step int, label int, site string)
 	Unreleased int
 	Forced     int // grants forced by the starvation bound
+	AdvTotal   time.Duration
+	AdvLog     []AdvRec // forced clock advances: global step at which they happened and their size
+}
+
+// AdvRec is one forced clock advance.
+type AdvRec struct {
+	Step int
+	D    time.Duration
 }
 
 var cur *Sim
@@ -202,12 +212,24 @@ func Release(m any, write bool) {
 	if s == nil {
 		return
 	}
+	gid := simGoid()
 	s.mu.Lock()
 	if ls := s.locks[m]; ls != nil {
 		if write {
 			ls.writer = false
 		} else if ls.readers > 0 {
 			ls.readers--
+			g := s.labels[gid]
+			if ls.readerG[g] > 0 {
+				ls.readerG[g]--
+			} else {
+				for k, n := range ls.readerG { // released by another goroutine (hand-off)
+					if n > 0 {
+						ls.readerG[k]--
+						break
+					}
+				}
+			}
 		}
 	} else {
 		s.Unreleased++
@@ -258,6 +280,7 @@ var (
 type StuckError struct {
 	Parked    []string // sites of parked (ineligible) lock waiters
 	LockCycle bool
+	Cycle     bool // a wait-for cycle among lock waiters was found (definite deadlock)
 }
 
 func (e *StuckError) Error() string {
@@ -327,6 +350,10 @@ func (s *Sim) Run(cond func() bool, maxSteps int, deadline time.Duration) error 
 			}
 		}
 		sort.Slice(cands, func(i, j int) bool { return cands[i].label < cands[j].label })
+		if cyc := s.lockCycle(); cyc != nil {
+			s.mu.Unlock()
+			return &StuckError{Parked: cyc, LockCycle: true, Cycle: true}
+		}
 		if len(cands) == 0 {
 			var lw []string
 			for _, w := range s.parked {
@@ -365,6 +392,8 @@ func (s *Sim) Run(cond func() bool, maxSteps int, deadline time.Duration) error 
 		if d.K == "a" {
 			s.mu.Unlock()
 			s.Advances++
+			s.AdvTotal += time.Duration(d.D)
+			s.AdvLog = append(s.AdvLog, AdvRec{Step: s.step, D: time.Duration(d.D)})
 			s.Trace = append(s.Trace, d)
 			time.Sleep(time.Duration(d.D))
 			continue
@@ -385,13 +414,15 @@ func (s *Sim) Run(cond func() bool, maxSteps int, deadline time.Duration) error 
 		if w.lock != nil {
 			ls := s.locks[w.lock]
 			if ls == nil {
-				ls = &lockState{}
+				ls = &lockState{readerG: map[int]int{}}
 				s.locks[w.lock] = ls
 			}
 			if w.write {
 				ls.writer = true
+				ls.writerG = w.label
 			} else {
 				ls.readers++
+				ls.readerG[w.label]++
 			}
 		}
 		if s.lastG >= 0 && s.lastG != w.label {
@@ -535,6 +566,85 @@ func (s *Sim) decide(cands []*waiter) (Decision, error) {
 		w = pool[s.rng.Intn(len(pool))]
 	}
 	return Decision{K: "r", G: w.label, S: w.site}, nil
+}
+
+// lockCycle looks for a wait-for cycle among parked lock waiters: waiter -> goroutines holding
+// the mutex it waits for. A goroutine waiting for a mutex it holds itself (RLock held, Lock
+// requested) is a cycle of length one. Returns the sites on the cycle, or nil. Caller holds s.mu.
+func (s *Sim) lockCycle() []string {
+	waits := map[int]*waiter{}
+	for _, w := range s.parked {
+		if w.lock != nil && !s.eligible(w) {
+			waits[w.label] = w
+		}
+	}
+	if len(waits) == 0 {
+		return nil
+	}
+	holders := func(w *waiter) []int {
+		ls := s.locks[w.lock]
+		if ls == nil {
+			return nil
+		}
+		var hs []int
+		if ls.writer {
+			hs = append(hs, ls.writerG)
+		}
+		for g, n := range ls.readerG {
+			if n > 0 {
+				hs = append(hs, g)
+			}
+		}
+		sort.Ints(hs)
+		return hs
+	}
+	labels := make([]int, 0, len(waits))
+	for g := range waits {
+		labels = append(labels, g)
+	}
+	sort.Ints(labels)
+	for _, start := range labels {
+		// DFS over "waits for" edges restricted to goroutines that are themselves blocked on a lock
+		seen := map[int]bool{}
+		var path []string
+		var dfs func(g int) bool
+		dfs = func(g int) bool {
+			w := waits[g]
+			if w == nil {
+				return false // holder is not blocked on a lock: it can still release
+			}
+			if seen[g] {
+				return g == start
+			}
+			seen[g] = true
+			path = append(path, w.site)
+			hs := holders(w)
+			if len(hs) == 0 {
+				path = path[:len(path)-1]
+				return false
+			}
+			// every holder must be (transitively) stuck on this cycle for a definite deadlock;
+			// be conservative: require all holders to lead back into blocked goroutines
+			all := true
+			for _, h := range hs {
+				if h == start && len(path) >= 1 {
+					continue
+				}
+				if !dfs(h) {
+					all = false
+					break
+				}
+			}
+			if !all {
+				path = path[:len(path)-1]
+			}
+			return all
+		}
+		if dfs(start) {
+			return path
+		}
+	}
+	return nil
 }
 
 // ReleaseAll wakes every parked goroutine (used after Deactivate for the free-running teardown).
